@@ -7,7 +7,7 @@ From Centro Require Import Base.Sx Base.EmdBase Spec.Emd Model.Emd Model.EmdCert
   Proofs.EmdMcfCert Proofs.EmdHeapMem Proofs.EmdDijkstra Proofs.EmdDijkstraInit
   Proofs.EmdTight Proofs.EmdGhost Proofs.EmdCspPost Proofs.EmdPairAddr Proofs.EmdGraphShape Proofs.EmdAugment Proofs.EmdRun Proofs.EmdConserve Proofs.EmdConserveRun Proofs.EmdIndex Proofs.EmdOptimal Proofs.EmdWrap.
 From Centro Require Import Model.EmdAsIs Model.EmdW Proofs.EmdWrap2 Model.EmdP Proofs.EmdNoWrap.
-From Centro Require Import Model.EmdMcf Proofs.EmdProgLL Proofs.EmdEndToEnd Proofs.EmdConserve Proofs.EmdXCaps Proofs.EmdReadBack Proofs.EmdDist.
+From Centro Require Import Model.EmdMcf Proofs.EmdProgLL Proofs.EmdEndToEnd Proofs.EmdConserve Proofs.EmdXCaps Proofs.EmdReadBack Proofs.EmdDist Proofs.EmdNoFail Proofs.EmdRun.
 Import ListNotations.
 Open Scope Z_scope.
 
@@ -825,3 +825,23 @@ Theorem C10_emd_int32_correct_below_bound_partial : forall p q c pen ft gd d F, 
   emd_spec p q c (penalty_of c pen) d.
 Proof. exact emd_int32_correct_below_bound_partial2. Qed.
 Print Assumptions C10_emd_int32_correct_below_bound_partial.
+
+(* C10_mcf_no_fail_if_flag_clear — PARTIAL.  FULL statement aimed at: a step of the flagged run whose
+   flag is clear never returns MFail.  PROVED (the augmentation half): with the flag clear the walk
+   along prev reaches the start node within nv hops through finalized nodes, every hop is a residual
+   arc, hence x[from] has an entry pointing at `to` (forward entry of an arc from->to or reverse entry
+   of an arc to->from; the skeleton of x never changes) — scan_delta and augment cannot fail; a failing
+   step with a clear flag failed in the search: compute_shortest_path = None or no deficit node reached
+   (l = k).  MISSING: lemma csp_total (the Dijkstra loop never leaves the heap's index range — the
+   per-operation halves are C10_heap_*_safe) and deficit_reachable (a node with negative excess is
+   finalized: balance + the artificial arcs). *)
+Theorem C10_mcf_no_fail_if_flag_clear_partial : forall nv c st, length c = nv ->
+  (forall l tc, In l c -> In tc l -> (fst tc < nv)%nat /\ 0 <= snd tc) ->
+  RunInv nv c st -> skel_x (m_x st) = skel_x (x_of nv (mk_arcs c)) ->
+  step_flag st = false -> mcf_step st = MFail ->
+  match compute_shortest_path nv (m_d st) (m_prev st) (snd (pick_supply (m_e st) O 0 O)) (m_rf st) (m_rb st) (m_e st) with
+  | None => True
+  | Some (_, _, _, _, l) => l = snd (pick_supply (m_e st) O 0 O)
+  end.
+Proof. exact step_fail_only_in_search. Qed.
+Print Assumptions C10_mcf_no_fail_if_flag_clear_partial.
